@@ -281,13 +281,13 @@ def detach_log_handler(h):
     logging.disable(logging.CRITICAL)
 
 
-def flat_log(log):
+def flat_log(log, raw_rearm=False):
     out = []
     i = 0
     n = len(log)
     while i < n:
         o = log[i]
-        if o[0] == "sched" and o[2]:
+        if o[0] == "sched" and o[2] and not raw_rearm:
             # rollback re-arm iterates a set: canonicalise that run by sorting
             j = i
             run = []
@@ -329,7 +329,7 @@ def flat_log(log):
     return out
 
 
-def flat_state(am: AM, interp, rec: Rec, queue_items):
+def flat_state(am: AM, interp, rec: Rec, queue_items, raw_rearm=False):
     out = [TS("cfg")] + [TN(x) for x in rec.cfg(interp)]
     out.append(TS("hist"))
     hist = {rec.ids[p]: [rec.ids[n.id] for n in l] for p, l in interp._history.items() if l}
@@ -345,7 +345,7 @@ def flat_state(am: AM, interp, rec: Rec, queue_items):
     out.append(TS("output"))
     out += [TS("none")] if interp.output is None else [TZ(interp.output)]
     out.append(TS("log"))
-    out += flat_log(rec.log)
+    out += flat_log(rec.log, raw_rearm)
     return out
 
 
@@ -392,7 +392,7 @@ def with_timeout(seconds, fn):
 # sync macro run
 # --------------------------------------------------------------------------
 
-def run_sync(am: AM, events, cfg_opts=None, seed_ctx=None, per_event=True, probe_can=False, hook_faults=False):
+def run_sync(am: AM, events, cfg_opts=None, seed_ctx=None, per_event=True, probe_can=False, hook_faults=False, raw_rearm=False):
     """start() then send() each event.  Returns list of token lists: the state after
     start and after each send (log is cumulative)."""
     from xstate_statemachine import create_machine, SyncInterpreter
@@ -411,7 +411,7 @@ def run_sync(am: AM, events, cfg_opts=None, seed_ctx=None, per_event=True, probe
         instrument(it, rec, "sync", hook_faults)
 
         def snap():
-            snaps.append(flat_state(am, it, rec, list(it._event_queue)))
+            snaps.append(flat_state(am, it, rec, list(it._event_queue), raw_rearm))
         try:
             with_timeout(4, it.start)
         except Timeout:
@@ -489,7 +489,7 @@ async def quiesce(it, extra=3):
         await asyncio.sleep(0)
 
 
-def run_async(am: AM, events, cfg_opts=None, seed_ctx=None, per_event=True, probe_can=False, hook_faults=False):
+def run_async(am: AM, events, cfg_opts=None, seed_ctx=None, per_event=True, probe_can=False, hook_faults=False, raw_rearm=False):
     from xstate_statemachine import create_machine, Interpreter
     rec = Rec(am)
     snaps = []
@@ -509,7 +509,7 @@ def run_async(am: AM, events, cfg_opts=None, seed_ctx=None, per_event=True, prob
 
         def snap():
             q = list(getattr(it._event_queue, "_queue", []))
-            snaps.append(flat_state(am, it, rec, q))
+            snaps.append(flat_state(am, it, rec, q, raw_rearm))
         try:
             await it.start()
         except Exception as exc:
